@@ -59,6 +59,7 @@ def legal(sig, ret):
 
 NEW = [("typeguard", "new"), ("beartype", "new")]
 DC = [("typeguard", "dataclass"), ("beartype", "dataclass")]
+DCD = [("typeguard", "dataclass-derived"), ("beartype", "dataclass-derived")]  # a jaxtyped dataclass deriving from a jaxtyped dataclass
 OLD = [("typeguard", "old"), ("beartype", "old")]
 S5 = [(), (2,), (3,), (1, 2), (2, 2), (0,)]
 S7 = [(), (1,), (2,), (3,), (1, 2), (2, 2), (2, 3), (0,)]
@@ -77,6 +78,17 @@ def signatures(tier):
             yield (nm,), r, S5[1:4], S5[1:], NEW, ["pos"]
         yield (f"b {nm}",), f"b 2*{nm}", [(2, 2), (2, 3), (3, 2)], [(2, 4), (2, 6), (3, 4)], NEW, ["kw"]
         yield (nm, f"{nm}+1"), None, S5[1:4], S, NEW + DC, ["pos", "kwrev"]
+    # one name on both sides of a multi-axis specifier (prefix and suffix of one annotation)
+    S_ENDS = [(2, 2), (2, 3), (1, 1, 2), (3, 2, 4), (2, 5, 2), (3,), (2,)]
+    for d in ("a *v a", "a ... a", "a *v a+1", "a *#v b a"):
+        for r in (None, "a"):
+            yield (d,), r, S_ENDS, S5[1:4], NEW + OLD + (DC if r is None else []), ["pos"]
+        yield (d, "a"), None, S_ENDS, S, NEW + DC, ["pos", "kwrev"]
+        yield ("a", d), None, S_ENDS, S, NEW + DCD, ["pos", "kwrev"]
+    for sig in itertools.product(D_Q3, repeat=2):
+        yield sig, None, S5, S, DCD, all2
+    for sig in itertools.product(D_Q3[:4], repeat=3):
+        yield sig, None, S4, S, DCD, ["kw"]
     if tier == "quick":
         for d in D:
             for r in rets:
@@ -123,6 +135,11 @@ def _make(sig, ret, tc_name, style, retbox):
     anns = {n: Float[Duck, d] for n, d in zip(names, sig)}
     if style == "dataclass":
         C = dataclasses.make_dataclass("C", [(n, anns[n]) for n in names])
+        return jaxtyped(typechecker=tc)(C)
+    if style == "dataclass-derived":
+        h = (len(names) + 1) // 2
+        B = jaxtyped(typechecker=tc)(dataclasses.make_dataclass("B", [(n, anns[n]) for n in names[:h]]))
+        C = dataclasses.make_dataclass("C", [(n, anns[n]) for n in names[h:]], bases=(B,))
         return jaxtyped(typechecker=tc)(C)
     scope = {"_RET": retbox}
     exec(f"def f({', '.join(names)}):\n    return _RET[0]\n", scope)
@@ -199,7 +216,7 @@ def _shard(job):
         retbox = [None]
         fns = {}
         for tc_name, style in variants:
-            if style == "dataclass" and ret is not None:
+            if style.startswith("dataclass") and ret is not None:
                 continue
             try:
                 fns[(tc_name, style)] = _make(sig, ret, tc_name, style, retbox)
@@ -265,7 +282,7 @@ def _shard(job):
 
 
 def run(ctx):
-    work = [(list(s), r, ps, rs, [v for v in var if not (v[1] == "dataclass" and r is not None)], st) for s, r, ps, rs, var, st in signatures(ctx.tier) if legal(s, r)]
+    work = [(list(s), r, ps, rs, [v for v in var if not (v[1].startswith("dataclass") and r is not None)], st) for s, r, ps, rs, var, st in signatures(ctx.tier) if legal(s, r)]
     # balance: sort by estimated cost descending then round-robin
     def cost(w):
         return (len(w[2]) ** len(w[0])) * (len(w[3]) if w[1] is not None else 1) * len(w[4]) * len(w[5])
@@ -280,7 +297,7 @@ def run(ctx):
     cov = dict(
         evaluations=stats["calls"],
         distinct_nontrivial=sum(o[3] for o in outs),
-        rule="every legal signature x every shape tuple x {typeguard, beartype} x {new-style def, dataclass __init__, old-style double decorator} x call styles {positional, keyword, reversed keyword, mixed}; "
+        rule="every legal signature x every shape tuple x {typeguard, beartype} x {new-style def, dataclass __init__, __init__ of a jaxtyped dataclass derived from a jaxtyped dataclass, old-style double decorator} x call styles {positional, keyword, reversed keyword, mixed}; "
         "non-trivial = a distinct (per worker) constraint multiset in which two constraints share an axis name, so the verdict depends on joint satisfiability",
         samples=samples,
         exhaustive=True,
